@@ -53,9 +53,14 @@ PROPS["C13"] = dict(T(16000, 40, 1000000, 900),
     note=NOTE,
     rule="Scenario: real Bootstrap + holder; listeners/connects/dials/Shutdown as concurrent tasks; peers stay silent so that only Shutdown can end a channel.")
 
+PROPS["C20"] = dict(T(12000, 40, 800000, 900),
+    text="Real ReadIdleHandler/WriteIdleHandler (1s/1.5s/3s) between two probes on a real channel; a peer and a writer produce messages at fake-clock gaps chosen around the expiry (d-1ms, d, d+1ms, bursts, silence up to 3.5d); Close after a final silence; optional panicking event handler; optional stall decisions. Timer callbacks run as scheduled tasks, so Close can land while a callback is parked between its expiry check and Trigger. Oracle: every idle event is at least d after activation and after every message that certainly passed the handler before the timer fired; events keep coming during silence (stall-free runs); at most the in-flight callback fires after inactive and the run reaches quiescence (timer released); a panicking event handler yields an exception delivery and no dead timer task.",
+    note=NOTE + " Timing clauses use lower/upper bounds of the handler's internal time stamps taken by probes on either side of it, so they are necessary conditions (sound).",
+    rule="Scenario: idle handlers on the synctest fake clock; message gaps relative to the idle time; Close after silence; panic injection on the k-th idle event.")
+
 NOT_APPLICABLE = {
     "C03": "Pipeline order and routing are pure functions of the build program and the event: the handler list is immutable after build and traversed by whichever goroutine delivers the event; no schedule, clock, fault or I/O behaviour enters. Simulation would only be relabelled input generation (DESIGN.md section 3, C03).",
     "C19": "pool.Pool adds no concurrency, time or I/O of its own: shard choice is arithmetic on sizes, mutual exclusion is entirely sync.Pool's, which the simulator has to replace by a stub, so simulated concurrent use would exercise the stub and not the repository (DESIGN.md section 3, C19).",
 }
-for _p in ["C04", "C07", "C08", "C09", "C14", "C15", "C16", "C17", "C20"]:
+for _p in ["C04", "C07", "C08", "C09", "C14", "C15", "C16", "C17"]:
     NOT_APPLICABLE.setdefault(_p, "check under construction in this session (planned as applicable, DESIGN.md section 3); not claimed until it runs clean")
